@@ -258,7 +258,12 @@ func ref(n *Node, e env) acc {
 			refMemo[n] = map[*ctx]acc{}
 		}
 		a := refCall(n, e)
-		refMemo[n][e.id] = a
+		m := refMemo[n]
+		if m == nil { // the memo was emptied while the arguments were evaluated
+			m = map[*ctx]acc{}
+			refMemo[n] = m
+		}
+		m[e.id] = a
 		refMemoSize++
 		return a
 	}
@@ -290,6 +295,28 @@ func upperKeepingBytes(s string) string {
 func atoi(s string) (int, bool) {
 	v, err := strconv.Atoi(s)
 	return v, err == nil
+}
+
+// constText: the text of an argument that must be known when the expression
+// is compiled (a delimiter): a literal, or a sub-expression without groups and
+// keys whose value the model knows exactly.
+func constText(n *Node) (string, bool) {
+	if n.K == "lit" {
+		return n.S, true
+	}
+	if n.usesKey() || n.usesGroup() {
+		return "", false
+	}
+	a := ref(n, env{keys: map[string]string{}})
+	if a.free || a.skip || a.anyErr || a.pred != nil || len(a.vals) != 1 {
+		return "", false
+	}
+	return a.vals[0], true
+}
+
+func constTextIs(n *Node, want string) bool {
+	v, ok := constText(n)
+	return ok && v == want
 }
 
 func litInt(n *Node) int {
@@ -396,7 +423,11 @@ func refCall(n *Node, e env) acc {
 	case "@split":
 		d := " " // "If delim isn't specified, " " will be used"
 		if len(n.A) > 1 {
-			d = n.A[1].S
+			dv, ok := constText(n.A[1])
+			if !ok {
+				return acc{free: true} // a delimiter taken from the match is not described
+			}
+			d = dv
 		}
 		return lift(refAll(n.A[:1], e), func(v []string) acc {
 			if v[0] == "" {
@@ -416,8 +447,29 @@ func refCall(n *Node, e env) acc {
 	case "@join":
 		ds := []string{" "}
 		if len(n.A) > 1 {
-			ds = []string{n.A[1].S}
-			if n.A[1].S == "" { // "If delim is empty, it will be " ""
+			dv, ok := constText(n.A[1])
+			if !ok {
+				// a delimiter taken from the match is not described, except that
+				// "@split and @join are inverse for any non-empty delimiter": the
+				// same non-empty delimiter given to both gives the string back (or
+				// the helpers refuse it)
+				if in := n.A[0]; in.K == "call" && in.S == "@split" && len(in.A) == 2 && in.A[1].String() == n.A[1].String() {
+					dval, s := ref(n.A[1], e), ref(in.A[0], e)
+					plain := !s.free && s.pred == nil && !s.skip && len(s.vals) > 0 && !s.anyErr &&
+						!dval.free && dval.pred == nil && !dval.anyErr && len(dval.vals) == 1 && dval.vals[0] != ""
+					for _, v := range s.vals {
+						if strings.Contains(v, nul) {
+							plain = false
+						}
+					}
+					if plain {
+						return acc{vals: s.vals, anyErr: true}
+					}
+				}
+				return acc{free: true}
+			}
+			ds = []string{dv}
+			if dv == "" { // "If delim is empty, it will be " ""
 				ds = []string{"", " "}
 			}
 			// "@split and @join are inverse for any non-empty delimiter": joining
@@ -426,7 +478,7 @@ func refCall(n *Node, e env) acc {
 			// (a string that already holds list separators is not "a string" for
 			// this sentence: @join would rewrite those too; the general rule below
 			// handles it)
-			if in := n.A[0]; n.A[1].S != "" && in.K == "call" && in.S == "@split" && len(in.A) == 2 && in.A[1].K == "lit" && in.A[1].S == n.A[1].S {
+			if in := n.A[0]; dv != "" && in.K == "call" && in.S == "@split" && len(in.A) == 2 && constTextIs(in.A[1], dv) {
 				s := ref(in.A[0], e)
 				plain := !s.free && s.pred == nil && !s.skip && len(s.vals) > 0
 				for _, v := range s.vals {
